@@ -207,8 +207,45 @@ func runC06(c *ctx) {
 			env.Stop()
 		}
 	}
+	c06NilRow(c)
 	c.r.Exhaustive = true
 	c.r.Note("every single fault position of each flush shape enumerated; pairs: %s", map[bool]string{true: "all", false: "12 sampled per shape"}[c.tier == "thorough"])
+}
+
+// c06NilRow: a nil map[string]any is a JSON-marshalable row ("null"). Whatever the engine decides about such
+// a batch, the acknowledgement must be truthful: nil means every row of the batch is visible to queries
+// (which must then succeed), an error means none is.
+func c06NilRow(c *ctx) {
+	for _, pos := range []int{0, 1, 2} {
+		cfg := bs.DefaultBloomSearchEngineConfig()
+		cfg.MaxBufferedTime = time.Hour
+		env := NewEnv(cfg)
+		rows := []map[string]any{{"_id": 1, "w": "x"}, {"_id": 2, "w": "x"}, {"_id": 3, "w": "x"}}
+		batch := append([]map[string]any{}, rows[:pos]...)
+		batch = append(batch, nil)
+		batch = append(batch, rows[pos:]...)
+		ack := env.IngestWait(batch)
+		c.r.Case(true, fmt.Sprint("nil-row", pos))
+		c.r.Hit("flush.nil-row-batch." + b2s(ack == nil))
+		for which, eng := range map[string]*bs.BloomSearchEngine{"this engine": env.Eng, "a fresh engine": freshEngine(env)} {
+			for qname, q := range map[string]*bs.Query{"match-all": {}, "Token(x)": bs.NewQuery().Token("x").Build()} {
+				out := RunQuery(eng, q)
+				got := idsOf(out.Rows)
+				replay := map[string]any{"batch": "3 object rows with a nil map[string]any row at position " + fmt.Sprint(pos), "ack": fmt.Sprint(ack), "query": qname, "engine": which, "returned_ids": fmt.Sprint(got), "query_err": fmt.Sprint(out.Err)}
+				if ack == nil && (out.Err != nil || got[1] != 1 || got[2] != 1 || got[3] != 1) {
+					c.r.Add(Finding{Kind: "violation", Check: "ack-vs-visibility", Detail: fmt.Sprintf("a batch containing a nil row was acknowledged nil, but a %s query on %s returns ids %v with error %v: the acknowledged rows are not all visible", qname, which, got, out.Err), Replay: replay})
+				}
+				if ack != nil && len(got) != 0 {
+					c.r.Add(Finding{Kind: "violation", Check: "ack-vs-visibility", Detail: fmt.Sprintf("a batch containing a nil row was refused (%v) but rows %v are visible", ack, got), Replay: replay})
+				}
+			}
+		}
+		// later healthy work is unaffected either way
+		if err := env.IngestWait([]map[string]any{{"_id": 9, "w": "x"}}); err != nil {
+			c.r.Add(Finding{Kind: "violation", Check: "later-batch-affected", Detail: "a healthy batch after the nil-row batch was not acknowledged nil: " + err.Error(), Replay: map[string]any{"pos": pos}})
+		}
+		env.Stop()
+	}
 }
 
 // ---------------------------------------------------------------- C13
